@@ -166,5 +166,312 @@ def u_residual():
     return u
 
 
+# ---------------------------------------------------------------------------------------------
+# Hierholzer reconstruction: CONSERVATION (no traversal is invented; every traversal consumes one decided copy of its edge)
+#
+# abstraction: a residual list is seen through the multiset of its elements (M[u][v] copies of v in residual[u], TOT[u] its length); pop()
+# returns SOME element of a non-empty list (whatever the order: an over-approximation of "the last one").  A walk list is seen through its first
+# and last element, its length, the set of vertices on it and the multiset P of its consecutive pairs.  Ghost `taken` counts the popped edges.
+
+CNT = z3.ArraySort(INT, z3.ArraySort(INT, INT))
+
+
+def _inc(A, u, v, d=1):
+    return z3.Store(A, u, z3.Store(A[u], v, A[u][v] + d))
+
+
+class ResGraph:
+    def __init__(self, M, TOT):
+        self.M, self.TOT = M, TOT
+
+    @classmethod
+    def fresh(cls, name):
+        c = core.ctx()
+        return cls(z3.Const(c.name(name + ".M"), CNT), z3.Array(c.name(name + ".len"), INT, INT))
+
+    def copy(self):
+        return ResGraph(self.M, self.TOT)
+
+    def __getitem__(self, v):
+        return ResList(self, lift(v))
+
+    def items(self):
+        return _Items(self)
+
+    def values(self):
+        c = core.ctx()
+        n = c.fresh_const("n_vertices", INT)
+        c.assume(n >= 0)
+        VAT = z3.Function(c.name("vertex_at"), INT, INT)
+        g = self
+        return SymSeq(n, lambda j: ResList(g, VAT(lift(j))), None, "values")
+
+
+class _Items:
+    dictcomp_source = True
+
+    def __init__(self, g): self.g = g
+
+
+class ResList:
+    def __init__(self, g, v): self.g, self.v = g, v
+
+    def __bool__(self):
+        return core.ctx().decide(self.g.TOT[self.v] > 0, "residual-list-non-empty")
+
+    def pop(self):
+        c, g, v = core.ctx(), self.g, self.v
+        c.prove("pre:pop-only-from-a-non-empty-list", g.TOT[v] > 0, kind="pre")
+        w = c.fresh_const("popped", INT)
+        c.assume(g.M[v][w] >= 1)                       # a non-empty list yields one of its elements (meta-level: TOT[v] = sum_w M[v][w])
+        g.M, g.TOT = _inc(g.M, v, w, -1), z3.Store(g.TOT, v, g.TOT[v] - 1)
+        return Sym(w)
+
+
+class WalkList:
+    """a python list of vertices seen through: first, last, n, the vertices on it (ON), the multiset of its consecutive pairs (P)"""
+    def __init__(self, first, last, n, ON, P):
+        self.first, self.last, self.n, self.ON, self.P = first, last, n, ON, P
+
+    @classmethod
+    def of(cls, elts):
+        if len(elts) != 1:
+            raise Unsupported("list display with %d elements" % len(elts))
+        x = lift(elts[0])
+        return cls(x, x, z3.IntVal(1), z3.Store(z3.K(INT, z3.BoolVal(False)), x, z3.BoolVal(True)), z3.K(INT, z3.K(INT, z3.IntVal(0))))
+
+    @classmethod
+    def fresh(cls, name):
+        c = core.ctx()
+        w = cls(c.fresh_const(name + ".first", INT), c.fresh_const(name + ".last", INT), c.fresh_const(name + ".len", INT),
+                z3.Array(c.name(name + ".on"), INT, BOOL), z3.Const(c.name(name + ".pairs"), CNT))
+        c.assume(z3.And(w.n >= 1, w.ON[w.first], w.ON[w.last]))
+        return w
+
+    def append(self, x):
+        x = lift(x)
+        self.P, self.ON, self.last, self.n = _inc(self.P, self.last, x), z3.Store(self.ON, x, z3.BoolVal(True)), x, self.n + 1
+
+    def index(self, x):
+        c = core.ctx()
+        c.prove("pre:index()-of-a-vertex-that-is-on-the-walk", self.ON[lift(x)], kind="pre")
+        i = c.fresh_const("position", INT)
+        c.assume(z3.And(i >= 0, i < self.n))
+        return _Pos(self, lift(x), i)
+
+    def __getitem__(self, k):
+        if isinstance(k, slice):
+            return _Slice(self, k)
+        if k == 0:
+            return Sym(self.first)
+        if k == -1:
+            return Sym(self.last)
+        raise Unsupported("walk[%r]" % (k,))
+
+    def __setitem__(self, k, tail):
+        # walk[p+1:p+1] = closed_walk[1:]  with walk[p] == closed_walk[0]
+        if not (isinstance(k, slice) and isinstance(k.start, _Pos1) and isinstance(k.stop, _Pos1) and k.start.pos is k.stop.pos and isinstance(tail, _Slice) and tail.is_tail):
+            raise Unsupported("walk slice assignment of another shape")
+        pos, cw = k.start.pos, tail.w
+        c = core.ctx()
+        c.prove("pre:the-closed-walk-is-spliced-in-right-after-an-occurrence-of-its-own-start-vertex", z3.And(z3.BoolVal(pos.w is self), pos.x == cw.first), kind="pre")
+        closed = cw.last == cw.first
+        c.closed_flags = getattr(c, "closed_flags", []) + [closed]
+        x, a = z3.Ints("sx sa")
+        # if the spliced walk is closed the pairs add up; otherwise the pair that followed the insertion point is replaced (conservation is then not claimed)
+        newP = z3.Const(c.name("pairs_after_splice"), CNT)
+        c.assume(z3.Implies(closed, z3.ForAll([x, a], newP[x][a] == self.P[x][a] + cw.P[x][a])))
+        self.P = newP
+        self.ON = z3.Lambda([x], z3.Or(self.ON[x], cw.ON[x]))
+        self.n = self.n + cw.n - 1
+        self.last = z3.If(closed, self.last, z3.Int(c.name("last_after_open_splice")))
+
+    def __eq__(self, other):
+        if isinstance(other, list) and len(other) == 1:
+            return core.ctx().decide(z3.And(self.n == 1, self.first == lift(other[0])), "walk-is-just-the-source")
+        return NotImplemented
+
+    __hash__ = None
+
+
+class _Pos:
+    def __init__(self, w, x, i): self.w, self.x, self.i = w, x, i
+    def __add__(self, k):
+        if k == 1:
+            return _Pos1(self)
+        raise Unsupported("position arithmetic")
+
+
+class _Pos1:
+    def __init__(self, pos): self.pos = pos
+
+
+class _Slice:
+    def __init__(self, w, k):
+        self.w = w
+        self.is_tail = (k.start == 1 and k.stop is None and k.step is None)
+        self.is_inner = (k.start == 1 and k.stop == -1 and k.step is None)
+
+
+def _hier_globs():
+    def len_(x):
+        from pyvc.rt import BUILTINS
+        if isinstance(x, WalkList):
+            return Sym(x.n)
+        if isinstance(x, ResList):
+            return Sym(x.g.TOT[x.v])
+        return BUILTINS["len"](x)
+    return dict(utils=UtilsStub, len=len_)
+
+
+def _inplace(names):
+    """the residual graph and the stack are objects the caller also holds: a loop havocs their FIELDS in place (never rebinds the local name)"""
+    def fresh_at(old):
+        fn = z3.Function(core.ctx().name("stack_at"), INT, INT)
+        return lambda j: Sym(fn(lift(j)))
+    out = []
+    if "graph" in names:
+        out += [(("graph", "M"), lambda old: z3.Const(core.ctx().name("M"), CNT)), (("graph", "TOT"), lambda old: z3.Array(core.ctx().name("len"), INT, INT))]
+    if "stack" in names:
+        out += [(("stack", "n"), lambda old: _nonneg(core.ctx().fresh_const("stack_len", INT))), (("stack", "_at"), fresh_at)]
+    return out
+
+
+def _nonneg(t):
+    core.ctx().assume(t >= 0)
+    return t
+
+
+def _stack_ok(stack, ON):
+    j = z3.Int("sj")
+    return z3.ForAll([j], z3.Implies(z3.And(j >= 0, j < stack.n), ON[lift(stack._at(j))]))
+
+
+def u_closed_walk():
+    """_build_closed_walk_from_vertex(graph, start, stack): the pairs of the returned walk are exactly the edges popped from `graph`; it starts at
+    `start`; it ends at `start` again (closed) or at a vertex whose residual list is empty; everything pushed on `stack` lies on it"""
+    st = {}
+
+    def inv(ns, seq, done):
+        g, cw, stack = ns["graph"], ns["closed_walk"], ns["stack"]
+        x, a = z3.Ints("ix ia")
+        j = z3.Int("ij")
+        return {"residual-multiplicities+pairs-of-the-walk-so-far=initial-multiplicities": z3.ForAll([x, a], g.M[x][a] + cw.P[x][a] == st["M0"][x][a]),
+                "the-walk-starts-at-start_vertex-and-ends-at-the-current-vertex": z3.And(cw.first == st["start"], cw.last == lift(ns["current_vertex"]), cw.n >= 1, cw.ON[cw.first]),
+                "stack=old-stack+vertices-of-the-walk": z3.And(stack.n >= st["s0"], z3.ForAll([j], z3.Implies(z3.And(j >= st["s0"], j < stack.n), cw.ON[lift(stack._at(j))])),
+                                                              z3.ForAll([j], z3.Implies(z3.And(j >= 0, j < st["s0"]), lift(stack._at(j)) == lift(st["stack0"]._at(j)))))}
+
+    def h(c, f):
+        class Me(Tracked):
+            pass
+        g = ResGraph.fresh("graph")
+        x, a = z3.Ints("hx ha")
+        c.assume(z3.ForAll([x, a], g.M[x][a] >= 0))
+        start = c.fresh_const("start_vertex", INT)
+        stack = SymSeq.fresh("stack", SInt)
+        st.update(M0=g.M, start=start, s0=stack.n, stack0=stack.copy())
+        cw = f(Me(), g, Sym(start), stack)
+        if not isinstance(cw, WalkList):
+            c.prove("post:returns-the-walk-list", False, prop=P)
+            return
+        j = z3.Int("pj")
+        c.prove("post:CONSERVATION-the-consecutive-pairs-of-the-returned-walk-are-exactly-the-edges-removed-from-the-residual-graph-(with-multiplicity)",
+                z3.ForAll([x, a], g.M[x][a] + cw.P[x][a] == st["M0"][x][a]), prop=P)
+        c.prove("post:starts-at-start_vertex", cw.first == start, prop=P)
+        c.prove("post:ends-closed-at-start_vertex-or-stuck-at-a-vertex-without-a-remaining-out-edge", z3.Or(z3.And(cw.last == start, cw.n >= 2), g.TOT[cw.last] <= 0), prop=P)
+        c.prove("post:whatever-was-pushed-on-the-stack-lies-on-the-returned-walk;-older-entries-untouched",
+                z3.And(stack.n >= st["s0"], z3.ForAll([j], z3.Implies(z3.And(j >= st["s0"], j < stack.n), cw.ON[lift(stack._at(j))])),
+                       z3.ForAll([j], z3.Implies(z3.And(j >= 0, j < st["s0"]), lift(stack._at(j)) == lift(st["stack0"]._at(j))))), prop=P)
+
+    loops = {0: dict(inv=inv, prop=P, havoc={"closed_walk": lambda old: WalkList.fresh("closed_walk")}, keep=("next_vertex", "graph", "stack"), modifies=_inplace(("graph", "stack")))}
+    return Unit(F, "AbstractWalkModelDiGraph._build_closed_walk_from_vertex", h, globs=_hier_globs(), loops=loops, props=[P], literals=dict(list_of=WalkList.of),
+                assumptions=["a residual list is abstracted to the multiset of its elements: pop() returns some element of a non-empty list (any order)",
+                             "termination of the while loop is not claimed (each iteration removes one edge: a variant exists, not checked)"])
+
+
+def u_reconstruct():
+    """_reconstruct_eulerian_walk: CONSERVATION through the main walk and every splice, under the hypothesis that every spliced sub-walk is closed
+    (which balance at inner nodes guarantees: the Euler argument, NOT proved here; the callee proves `closed or stuck`)."""
+    st = {}
+
+    def all_closed():
+        fl = getattr(core.ctx(), "closed_flags", [])
+        return z3.And(*fl) if fl else z3.BoolVal(True)
+
+    def base(g, walk):
+        x, a = z3.Ints("bx ba")
+        return z3.ForAll([x, a], g.M[x][a] + walk.P[x][a] == st["M0"][x][a])
+
+    def inv0(ns, seq, done):
+        g, walk, stack = ns["graph"], ns["walk"], ns["stack"]
+        return {"pairs-of-the-walk=edges-popped": base(g, walk),
+                "walk-starts-at-the-source-and-ends-at-the-current-vertex": z3.And(walk.first == st["src"], walk.last == lift(ns["current_vertex"]), walk.n >= 1, walk.ON[walk.first]),
+                "every-stack-entry-is-on-the-walk": _stack_ok(stack, walk.ON)}
+
+    def inv1(ns, seq, done):
+        g, walk, stack = ns["graph"], ns["walk"], ns["stack"]
+        return {"if-every-spliced-sub-walk-was-closed:-pairs-of-the-walk=edges-popped": z3.Implies(st["closed_so_far"](), base(g, walk)),
+                "walk-starts-at-the-source": z3.And(walk.first == st["src"], walk.n >= 1),
+                "every-stack-entry-is-on-the-walk": _stack_ok(stack, walk.ON)}
+
+    def h(c, f):
+        c.closed_flags = []
+        flag = z3.Bool("every_earlier_splice_was_closed")
+        st["closed_so_far"] = lambda: z3.And(flag, *getattr(core.ctx(), "closed_flags", []))
+
+        class G:
+            source, sink = Sym(z3.Int("source")), Sym(z3.Int("sink"))
+
+        class Me(Tracked):
+            pass
+        me = Me()
+        me.G = G()
+        g0 = ResGraph.fresh("residual_graph")
+        x, a = z3.Ints("hx ha")
+        c.assume(z3.ForAll([x, a], g0.M[x][a] >= 0))
+        st.update(M0=g0.M, src=G.source.t)
+
+        def callee(graph, start, stack):
+            """CONTRACT of _build_closed_walk_from_vertex (its own unit)"""
+            cc = core.ctx()
+            cw = WalkList.fresh("closed_walk")
+            M1, T1 = z3.Const(cc.name("M_after"), CNT), z3.Array(cc.name("len_after"), INT, INT)
+            y, b, j = z3.Ints("cy cb cj")
+            cc.assume(z3.ForAll([y, b], M1[y][b] + cw.P[y][b] == graph.M[y][b]))
+            cc.assume(cw.first == lift(start))
+            cc.assume(z3.Or(z3.And(cw.last == lift(start), cw.n >= 2), T1[cw.last] <= 0))
+            new = SymSeq.fresh("stack_after", SInt)
+            cc.assume(z3.And(new.n >= stack.n, z3.ForAll([j], z3.Implies(z3.And(j >= stack.n, j < new.n), cw.ON[lift(new._at(j))])),
+                             z3.ForAll([j], z3.Implies(z3.And(j >= 0, j < stack.n), lift(new._at(j)) == lift(stack._at(j))))))
+            graph.M, graph.TOT = M1, T1
+            stack.n, stack._at = new.n, new._at
+            return cw
+        me._build_closed_walk_from_vertex = callee
+        r = f(me, g0, Sym(z3.Int("layer_i")))
+        st["result"] = r
+        gfin, wfin = st.get("graph_final"), st.get("walk_final")
+        c.prove("post:the-caller's-residual-graph-is-not-modified-(the-reconstruction-works-on-a-copy)", z3.BoolVal(g0.M is st["M0"]), prop=P)
+
+    def at_exit1(ns, seq):
+        c = core.ctx()
+        g, walk = ns["graph"], ns["walk"]
+        x, a = z3.Ints("px pa")
+        c.prove("post:CONSERVATION-(if-every-spliced-sub-walk-was-closed)-every-consecutive-pair-of-the-reconstructed-walk-consumed-one-decided-copy-of-that-edge:-pairs=initial-remaining",
+                z3.Implies(st["closed_so_far"](), z3.ForAll([x, a], walk.P[x][a] == st["M0"][x][a] - g.M[x][a])), prop=P)
+        c.prove("post:the-walk-starts-at-the-source", walk.first == st["src"], prop=P)
+
+    def dictcomp(fn, it, flt):
+        return it.g.copy()
+    hv = dict(walk=lambda old: WalkList.fresh("walk"))
+    loops = {0: dict(inv=inv0, prop=P, havoc=hv, keep=("next_vertex", "graph", "stack"), modifies=_inplace(("graph", "stack"))),
+             1: dict(inv=inv1, prop=P, havoc=hv, at_exit=at_exit1, keep=("potential_vertex", "closed_walk_start_idx", "closed_walk", "graph", "stack"), modifies=_inplace(("graph", "stack")))}
+    return Unit(F, "AbstractWalkModelDiGraph._reconstruct_eulerian_walk", h, globs=_hier_globs(), loops=loops, props=[P], literals=dict(list_of=WalkList.of, dictcomp=dictcomp, list=lambda: SymSeq(z3.IntVal(0), lambda j: Sym(z3.IntVal(0)), SInt, "stack")),
+                callee_contracts=["AbstractWalkModelDiGraph._build_closed_walk_from_vertex (own unit)"],
+                assumptions=["a residual list is abstracted to the multiset of its elements (pop() returns some element)",
+                             "Euler argument NOT proved: that every spliced sub-walk is closed and that no edge is left over needs balance and connectivity of the multiplicities; "
+                             "the conservation clause is stated under `every spliced sub-walk was closed`; completeness (all edges used) is decided by the exhaustive bounded enumeration",
+                             "walk.index(v) returns some occurrence of v (the first one in python; irrelevant for the multiset of pairs)"])
+
+
 def all_units():
-    return [u_residual()]
+    return [u_residual(), u_closed_walk(), u_reconstruct()]
